@@ -176,8 +176,13 @@ func writeCase(r *rand.Rand, base string, idx int) {
 			n = a.Files[r.Intn(len(a.Files))].Name // duplicate
 		}
 		d := fmt.Sprintf("data %d of %q\n", i, n)
-		if r.Intn(5) == 0 {
+		switch r.Intn(10) {
+		case 0, 1:
 			d = ""
+		case 2:
+			d = strings.TrimSuffix(d, "\n") // an archive built in code: no final newline (Parse would have added one)
+		case 3:
+			d = []string{"x", "\n", "\r", "a\r\n", "line\nlast", "-- marker --", "\x00\xff", "\n\n"}[r.Intn(8)]
 		}
 		a.Files = append(a.Files, xt.File{Name: n, Data: []byte(d)})
 		ents = append(ents, entry{n, d})
